@@ -11,7 +11,7 @@ CHECKS = ('meta', 'once')
 DIRECTED = [['nw:1:128:0:', 'rc', 'rc', 'lg:1:1000:2:128:5:01000000', 'co:', 'rc', 'lg:1:1000:2:128:6:02000000', 'lg:1:1000:3:256:7:03000000', 'co:', 'co:'],
             ['nw:1:128:0:', 'co:', 'rc', 'lg:1:1000:2:128:5:01000000', 'co:', 'co:'],
             ['nw:1:128:0:', 'lg:1:1000:2:128:5:01000000', 'cs:5:1000000000:77:0:434554', 'rc', 'co:', 'rc', 'co:', 'lg:1:1000:4:512:9:01000000', 'co:']]
-def run(ctx): return run_session_property(ctx, CHECKS, dict(vary=lambda i, rng: dict(use_log=(i % 2 == 0), rotate=True)), 'a rotated output is not self-contained / events lost or duplicated across outputs', extra_cases=DIRECTED)
+def run(ctx): return run_session_property(ctx, CHECKS, dict(vary=lambda i, rng: dict(use_log=(i % 2 == 0), rotate=True)), 'a rotated output is not self-contained / events lost or duplicated across outputs', extra_cases=DIRECTED, inside=True)
 def search(ctx):
     c2 = Ctx(ctx.pid, 'quick', ctx.seed + 1, random.Random(ctx.seed + 99), ctx.drivers, True); c2.n = lambda q, t: 6000
     found = [v for v in run(c2)['violations'] if v[1]]
